@@ -57,8 +57,9 @@ structure R23Trial (α : Type) (n : Nat) where
   m : Meter α n
   err : α
 
-def rk23Trial {σ : Type} (P : R23Params α n) (f : Rhs α n) (s : R23State σ α n) (h : α) : R23Trial α n :=
-  let o := Gen.Rk23.stages (f := fun j => f (s.m.ncalls + j)) (y := s.y) (h := h) (k1 := s.k1) (x := s.x)
+def rk23Trial {σ : Type} (P : R23Params α n) (f : Rhs α n) (s : R23State σ α n) (h : α) (last : Bool) : R23Trial α n :=
+  -- the landing step evaluates its last stage at `xph = xend` (not at `x + h`, which can miss xend by a rounding error)
+  let o := Gen.Rk23.stages (f := fun j => f (s.m.ncalls + j)) (y := s.y) (h := h) (k1 := s.k1) (x := s.x) (last := last) (xend := P.xend)
   let ye := (Gen.Rk23.errvec (h := h) (k1 := s.k1) (k2 := o.k2) (k3 := o.k3) (k4 := o.k4)).ye
   { o := o, m := s.m.bump o.calls 3, err := finiteGuard o.yt (Gen.Rk23.errnorm (atol := P.atol) (rtol := P.rtol) (yt := o.yt) (y := s.y) (ye := ye)) }
 
@@ -71,7 +72,7 @@ def rk23Accepted {σ : Type} (P : R23Params α n) (f : Rhs α n) (ob : Obs σ α
     (T : R23Trial α n) : Sum (R23State σ α n) (Result σ α n) :=
   let m := T.m.incTotal.incAccepted
   let xold := s.x
-  -- `x = if last { xend } else { x + h }`
+  -- `x = xph` with `xph = if last { xend } else { x + h }` (the time of the last stage)
   let x := landX last P.xend s.x h
   let ip : Option (α → Vec α n) :=
     if P.dense then
@@ -94,7 +95,7 @@ def rk23Iter {σ : Type} (P : R23Params α n) (f : Rhs α n) (ob : Obs σ α n) 
   | some st => .inr (s.result st)
   | none =>
     let h := rk23Adjust P s
-    let T := rk23Trial P f s h
+    let T := rk23Trial P f s h (rk23Last P s)
     if T.err ≤ P.one then rk23Accepted P f ob s h (rk23Last P s) T
     else
       .inl { s with h := h * Gen.Rk23.hRejectFactor P.safety T.err (Gen.Rk23.errorExponent : α) P.scaleMin,
@@ -155,10 +156,10 @@ def rk4Iter {σ : Type} (P : R4Params α) (f : Rhs α n) (ob : Obs σ α n) (s :
     if Num.eqb (s.x + h) s.x then
       .inr { status := .stepSizeTooSmall, h := h, x := s.x, y := s.y, m := s.m, obs := s.obs }
     else
-    let o := Gen.Rk4.stages (f := fun j => f (s.m.ncalls + j)) (y := s.y) (h := h) (k1 := s.k1) (x := s.x)
+    let o := Gen.Rk4.stages (f := fun j => f (s.m.ncalls + j)) (y := s.y) (h := h) (k1 := s.k1) (x := s.x) (last := a.2) (xend := P.xend)
     let m := s.m.bump o.calls 3
     let xold := s.x
-    let u := Gen.Rk4.update (f := fun j => f (m.ncalls + j)) (last := a.2) (xend := P.xend) (h := h) (x := s.x) (k1 := s.k1) (k2 := o.k2) (k3 := o.k3)
+    let u := Gen.Rk4.update (f := fun j => f (m.ncalls + j)) (xph := o.xph) (h := h) (k1 := s.k1) (k2 := o.k2) (k3 := o.k3)
       (k4 := o.k4) (y := s.y)
     -- `evals.ode += 4` covers the three stages and the evaluation at the new point
     let m := (m.bump u.calls 1).incTotal.incAccepted
